@@ -22,6 +22,7 @@ func exec(p cluster.Program, c *hx.Case) error {
 	c.LabelIf(st.Kills > 0, "worker-kill")
 	c.LabelIf(st.PubDuringRecovery > 0, "checkpoint-published-while-the-recovery-was-being-deployed")
 	c.LabelIf(st.SlowAssigns > 0, "slow-split-assignment")
+	c.LabelIf(st.StallTicks > 0, "checkpoint-started-while-the-runners-queues-were-full")
 	c.LabelIf(len(p.Fan) > 0, "records-keyed-into-several-events")
 	c.LabelIf(st.KillsAfterCkpt > 0, "kill-after-checkpoint")
 	c.LabelIf(st.KillsDuringCkpt > 0, "kill-during-checkpoint")
